@@ -36,6 +36,28 @@ PROPS = {
             'wall-clock steps are not simulated in this campaign',
         ],
     },
+    'C12': {
+        'engine': 'simd', 'profile': 'C12', 'level': 'exploration',
+        'rules': ['R-LIMIT', 'R-NORUN', 'R-INDEP', 'R-ONCE', 'R-SPUR', 'R-CRASHFREE'],
+        'gopts': {'property': 'C12'}, 'mopts': {},
+        'quick': {'budget': 55, 'runs': 100000}, 'thorough': {'budget': 900, 'runs': 10000000},
+        'assumptions': [
+            'true concurrency is known to the simulator because it scripts every executor lifetime',
+            'a not-run report is accepted while the daemon cannot yet know that an execution has ended (exit not reaped)',
+            'executions still running from a previous daemon process are not counted against the limit after a restart',
+        ],
+    },
+    'C11': {
+        'engine': 'simd', 'profile': 'C11', 'level': 'exploration',
+        'rules': ['R-REPLY', 'R-MAP', 'R-LIST', 'R-ISOL', 'R-RUNAS', 'R-REPLYUID', 'R-SERVE', 'R-SNAP',
+                  'R-DURABLE', 'R-CRASHFREE'],
+        'gopts': {'property': 'C11'}, 'mopts': {},
+        'quick': {'budget': 55, 'runs': 100000}, 'thorough': {'budget': 900, 'runs': 10000000},
+        'assumptions': [
+            'no two distinct UID strings of one run share their full 32-bit hash (the daemon keys tasks by that hash)',
+            'requests are delivered whole; fragmentation is C10',
+        ],
+    },
 }
 
 
